@@ -218,6 +218,17 @@ CLAIMS = {
         "malformed programs."),
   note=NOTE_COMMON + "Frozen table: c17_roles.json (seven syntactic tokens - each re-checked to be tested by some statement parser -, the error token, three tokens "
        "with two legitimate roles). If the evaluator is re-architected so that the `k == tok...` / mask patterns vanish the check exits 2."),
+ "C15": dict(
+  technique="antisymmetry-by-construction analysis of every qsort comparison callback + sort-key/search-key agreement + exact rational classification of cxxSolution::add into extensive and water-fraction-weighted intensive members, cross-checked with cxxSolution::multiply",
+  text=("C15 is a metamorphic property over pairs of runs and is NOT decided as a whole. Two of its named mechanisms are structural and are "
+        "decided: (a) 'order-independent storage (sorted lists)': each of the functions handed to qsort applies the same accessor to both "
+        "operands in every comparison that relates them, derives its per-operand locals by the same expressions, and returns mirrored signs for "
+        "mirrored tests; every list searched with bsearch is searched by the accessor and comparison family it is sorted by; (b) "
+        "'extensive/intensive separation when adding solutions': in cxxSolution::add every scalar is either `+= addee.x * extensive` or "
+        "`= f1*this.x + f2*addee.x` with f1 = w1/(w1+e*w2), f2 = e*w2/(w1+e*w2) (exact rational identities, locals inlined), the extensive set "
+        "is exactly what cxxSolution::multiply scales, totals and isotopes go through their extensive helpers. NOT decided: unit conversion, "
+        "density iteration, renumbering, repeated definitions, mixing order (they need the numerical results of two runs)."),
+  note=NOTE_COMMON + "A partial claim labelled `other`: necessary conditions for two of the five invariances, nothing about the others."),
  "C16": dict(
   technique="model-number exhaustiveness over every switch on species::gflag + reader/writer agreement on the model parameter fields + exact rational-function comparison of the lg assignments with the defining equations",
   text=("Only the ion-association clause of C16 ('each species' log activity coefficient equals the model the database assigns to it') has parts "
@@ -235,7 +246,6 @@ CLAIMS = {
 
 NOT_APPLICABLE = {
  "C03": "equilibrium end-state (SI = target, phase present/absent, site and mole-fraction sums) is the fixed point of an inequality-constrained Newton iteration; only its numeric outcome can be judged",
- "C15": "metamorphic equalities between pairs of runs; the unit-conversion routine could only be judged by evaluating it for each unit string, i.e. by executing it (symbolically), which this technique family excludes",
  "C18": "admissibility of each reported inverse model depends on the L1 solver's numeric output for each problem",
  "C19": "equation-of-state and fugacity relations are numerical identities over the P-T range",
  "C20": "surface mass-action and charge-potential relations are numerical identities over all surfaces",
